@@ -131,7 +131,7 @@ def run_check(mod, tier, seed):
         "distinct_nontrivial": len(total.nontrivial) + int(sum(e.get("distinct_nontrivial", 0) for e in extras)),
         "rule": meta.get("rule", "one evaluation = one SMT query (window property, vacuity twin, rooting or "
                          "reachability step) discharged by a fresh solver; distinct = distinct SHA-1 of the "
-                         "simplified query text; non-trivial = not simplified to true/false before solving"),
+                         "query text; non-trivial = the query is not the literal true/false (it mentions netlist terms)"),
         "samples": (total.samples or [jsonable(c) for c in cfgs[:3]])[:6],
         "configurations": len(cfgs),
         "configurations_skipped": skipped,
